@@ -83,7 +83,9 @@ func scanOne(text string) scanResult {
 	return r
 }
 
-func crlf(s string) string { return strings.ReplaceAll(s, "\n", "\r\n") }
+func crlf(s string) string {
+	return strings.ReplaceAll(strings.ReplaceAll(s, "\r\n", "\n"), "\n", "\r\n")
+}
 
 func c16Check(c c16Case) *Violation {
 	p := c.residues()
